@@ -549,7 +549,7 @@ def build_dsched_runtime():
     return obj, ""
 
 
-def build_dsched_harness(src, name=None, with_lib=False, extra_flags=()):
+def build_dsched_harness(src, name=None, with_lib=False, extra_flags=(), repo_cpps=("tsan_annotations.cpp",)):
     """harness + (optionally) dispenso's .cpp files compiled with TSan instrumentation only and linked
     against the dsched runtime instead of libtsan"""
     rt, log = build_dsched_runtime()
@@ -577,12 +577,22 @@ def build_dsched_harness(src, name=None, with_lib=False, extra_flags=()):
         rc, out, err = sh(cmd, timeout=1200)
         if rc != 0:
             return None, (out + err)[-6000:]
-        cmd = [TSAN_CXX, obj, rt] + ([lib] if lib else []) + ["-o", exe + ".tmp", "-pthread", "-ldl"]
+        extra_objs = []
+        if not lib:
+            for rc_ in repo_cpps:
+                eo = exe + "." + rc_.replace(".cpp", ".o")
+                rc2, o2, e2 = sh([TSAN_CXX, "-std=c++17", "-c", os.path.join(repo_path(), "dispenso", rc_), "-o", eo,
+                                  "-pthread", "-D%s=1" % GUARD] + flags + repo_includes(), timeout=600)
+                if rc2 != 0:
+                    return None, (o2 + e2)[-4000:]
+                extra_objs.append(eo)
+        cmd = [TSAN_CXX, obj, rt] + extra_objs + ([lib] if lib else []) + ["-o", exe + ".tmp", "-pthread", "-ldl"]
         rc, out2, err2 = sh(cmd, timeout=600)
-        try:
-            os.unlink(obj)
-        except OSError:
-            pass
+        for o_ in [obj] + extra_objs:
+            try:
+                os.unlink(o_)
+            except OSError:
+                pass
         if rc != 0:
             return None, (out2 + err2)[-6000:]
         os.rename(exe + ".tmp", exe)
